@@ -680,13 +680,58 @@ def _r05_termination(repo, sink, f, fn, loop, cfg, call):
     sink.check(ok, "R05", "termination-test", f,
                ok="run loop continues iff some component has time < end_time (strict)",
                bad=f"termination comparison is not the strict `time < end_time`: {detail}")
-    # the test comes after the step in the loop body and every back edge passes it
+    # every path from the step back to the loop head passes the termination decision
     cn = cfg.node_of(call)
-    tn = cfg.node_of(cmps[0])
     head = cfg.node_of(loop)
-    after = cfg.reachable(cn, tn) and not cfg.reachable(cn, head, avoid=[tn]) if tn is not head else True
+    gate = None
+    cmp0 = cmps[0]
+    if any(cmp0 is x for x in ast.walk(loop.test)):
+        gate = head  # idiom C: `while <some component before end>`
+    else:
+        def _own_loop(n):
+            cur = getattr(n, "_parent", None)
+            while cur is not None and not isinstance(cur, (ast.For, ast.While)):
+                cur = getattr(cur, "_parent", None)
+            return cur
+
+        breaks = [n for n in walk(loop) if isinstance(n, ast.If) and any(isinstance(b, ast.Break) for b in n.body)
+                  and _own_loop(n) is loop]
+        for b in breaks:
+            if any(cmp0 is x for x in ast.walk(b.test)):
+                gate = cfg.node_of(b)  # idiom B: `if all(... >= end ...): break`
+        if gate is None:
+            # idiom A: flag set under the comparison, `if not flag: break`
+            cur = cmp0
+            setter = None
+            while cur is not None and cur is not loop:
+                if isinstance(cur, ast.If) and any(cmp0 is x for x in ast.walk(cur.test)):
+                    setter = cur
+                    break
+                cur = getattr(cur, "_parent", None)
+            flags = set()
+            if setter is not None:
+                for n in setter.body:
+                    if isinstance(n, ast.Assign) and isinstance(n.value, ast.Constant) and n.value.value is True:
+                        flags |= {t.id for t in n.targets if isinstance(t, ast.Name)}
+            for b in breaks:
+                t = b.test
+                if isinstance(t, ast.UnaryOp) and isinstance(t.op, ast.Not) and isinstance(t.operand, ast.Name) and t.operand.id in flags:
+                    flag = t.operand.id
+                    # the flag is True only under the comparison, and reset after the step
+                    sets = [n for n in walk(loop) if isinstance(n, ast.Assign) and any(isinstance(x, ast.Name) and x.id == flag for x in n.targets)]
+                    true_sets = [n for n in sets if isinstance(n.value, ast.Constant) and n.value.value is True]
+                    false_sets = [n for n in sets if isinstance(n.value, ast.Constant) and n.value.value is False]
+                    only_under = all(any(n is x for x in ast.walk(setter)) for n in true_sets) and len(true_sets) + len(false_sets) == len(sets)
+                    reset = any(cfg.dominates(cfg.node_of(call), cfg.node_of(n)) and cfg.dominates_stmt(n, b) for n in false_sets)
+                    if only_under and reset:
+                        gate = cfg.node_of(b)
+    if gate is None:
+        sink.bad("R05", "termination-test-guards-back-edge", f,
+                 "the end-time comparison does not decide the loop exit (no while-test, break-test or reset flag idiom)")
+        return
+    after = gate is head or not cfg.reachable(cn, head, avoid=[gate])
     sink.check(after, "R05", "termination-test-guards-back-edge", f,
-               ok="no path from the step back to the loop head avoids the termination test",
+               ok="no path from the step back to the loop head avoids the termination decision",
                bad="a path from the scheduling step back to the loop head avoids the termination test")
 
 
